@@ -9,6 +9,38 @@ import io
 import sys
 
 
+class CaseTimeout(BaseException):
+    """one compilation used more CPU time than CASE_CPU_BUDGET_S"""
+
+
+CASE_CPU_BUDGET_S = 30.0  # the slowest compilation on the unchanged tree takes ~0.03 s (0.3 s with black)
+
+
+@contextlib.contextmanager
+def cpu_budget(seconds=CASE_CPU_BUDGET_S):
+    """Bounds the CPU time (ITIMER_VIRTUAL: user time of this process, so machine load does not matter) of one
+    compilation.  A text whose compilation does not finish within a budget three orders of magnitude above the norm is
+    reported as an outcome of that case ("CaseTimeout") instead of stalling the whole shard.  Only armed in the main
+    thread (signals are delivered there); the regex engine and the interpreter loop both poll for signals."""
+    import signal
+    import threading
+
+    if threading.current_thread() is not threading.main_thread():
+        yield
+        return
+
+    def on_timer(signum, frame):
+        raise CaseTimeout(f"more than {seconds} s of CPU time")
+
+    old = signal.signal(signal.SIGVTALRM, on_timer)
+    signal.setitimer(signal.ITIMER_VIRTUAL, seconds)
+    try:
+        yield
+    finally:
+        signal.setitimer(signal.ITIMER_VIRTUAL, 0)
+        signal.signal(signal.SIGVTALRM, old)
+
+
 class Impl:
     def __init__(self):
         import pyab_experiment.binning.binning as binning
@@ -29,9 +61,15 @@ class Impl:
         """-> ('ok', evaluator) | ('exc', type_name, message)"""
         buf = io.StringIO()
         try:
-            with contextlib.redirect_stdout(buf), contextlib.redirect_stderr(buf):
+            with cpu_budget(), contextlib.redirect_stdout(buf), contextlib.redirect_stderr(buf):
                 ev = self.Evaluator(text)
             return ("ok", ev)
+        except CaseTimeout as e:
+            self._timeouts = getattr(self, "_timeouts", 0) + 1
+            if self._timeouts > 3:
+                # the violations recorded so far stand; do not spend the shard's watchdog on more of the same
+                raise RuntimeError("more than three compilations exceeded the per-case CPU budget") from None
+            return ("exc", "CaseTimeout", str(e))
         except RecursionError as e:
             return ("exc", "RecursionError", str(e)[:200])
         except Exception as e:  # noqa: BLE001 - outcome classes are what the oracles judge
@@ -41,9 +79,11 @@ class Impl:
         """-> ('ok', ast) | ('none',) | ('exc', type_name, message)"""
         buf = io.StringIO()
         try:
-            with contextlib.redirect_stdout(buf), contextlib.redirect_stderr(buf):
+            with cpu_budget(), contextlib.redirect_stdout(buf), contextlib.redirect_stderr(buf):
                 ast = self.wf.parse_source(text)
             return ("ok", ast) if ast is not None else ("none",)
+        except CaseTimeout as e:
+            return ("exc", "CaseTimeout", str(e))
         except Exception as e:  # noqa: BLE001
             return ("exc", type(e).__name__, str(e)[:200])
 
